@@ -60,10 +60,21 @@ def op_kind(sc):
 def protocol(rep, tier, scratch):
     scs = pr.protocol_scenarios(tier)
     traces, names = [], []
+    hangs = 0
+    ran = []
     for sc in scs:
+        if hangs >= 3:
+            # three scenarios have hung (a minute each): the verdict is in
+            break
         recs, nm = pr.rename(pr.run_protocol(sc))
+        if any(r.get('ev') == 'hang' for r in recs):
+            hangs += 1
         traces.append(recs)
         names.append(nm)
+        ran.append(sc)
+    if len(ran) < len(scs):
+        rep.notes['protocol_scenarios_not_run_after_hangs'] = len(scs) - len(ran)
+    scs = ran
     rej, res, diags = tlc.validate_traces(traces, scratch, module='ParallelTrace',
                                           cfg='ParallelTrace.cfg', label='parallel')
     rep.add_tlc('ParallelTrace', res)
@@ -134,7 +145,10 @@ def differential(rep, tier, seed):
     pr.preload()
     rng = random.Random(seed + 13)
     n = 12 if tier == 'quick' else 120
+    hung = 0
     for i in range(n):
+        if hung >= 2:
+            break
         sc = er.random_scenario(rng, nprocs=rng.randint(2, 3), state_dependent=(i % 2 == 0))
         sc['emit_step'] = 1
         pids = list(sc['procs'])
@@ -142,7 +156,15 @@ def differential(rep, tier, seed):
         serial = run_rows(sc, ())
         for sub in subsets:
             rep.evaluations += 1
-            par = run_rows(sc, sub)
+            try:
+                with pr.Watch(90):
+                    par = run_rows(sc, sub)
+            except pr.Hang:
+                hung += 1
+                rep.violation({'kind': 'differential', 'differs': ['hang']},
+                              'running %s in parallel hangs (90 s); scenario %s'
+                              % (list(sub), json.dumps(sc)), {'scenario': sc, 'parallel': list(sub)})
+                continue
             if par != serial:
                 keys = [k for k in serial if serial[k] != par[k]]
                 rep.violation(
@@ -165,11 +187,14 @@ def differential(rep, tier, seed):
         if any(o['op'] == 'addex' for o in ops):
             continue
         rep.evaluations += 1
+        if hung >= 2:
+            break
         try:
             with pr.Watch(120):
                 ser, _ = sr.run_history(ops, initial=ini)
                 par, _ = sr.run_history(ops, initial=ini, parallel=True)
         except pr.Hang:
+            hung += 1
             rep.violation({'kind': 'differential-structural', 'what': 'hang',
                            'history': json.dumps(ops)},
                           'structural history hangs with parallel processes: %s from %s'
